@@ -15,7 +15,7 @@ RULE = ("three-phase networks dimensioned so constraints bind in a good share of
         "on/off x {no estimator, SimpleRampdown, stub estimator} x continuous_inc; non-trivial = a call with a binding "
         "constraint (some session got less than its own bound) and >=2 active sessions; distinct = history signature + options")
 PROBES = ["binding_call", "nearly_finished_session", "estimator_bound_binding", "uninterrupted_min_applied", "crossed_session_ids",
-          "resumed", "rr_call", "greedy_call", "finite_rate_station", "removed_finished_session", "constraint_free", "call_after_reconfig", "knife_edge_world", "knife_edge_sum_rejected", "sorted_recompute_interval_not_1"]
+          "resumed", "rr_call", "greedy_call", "finite_rate_station", "removed_finished_session", "constraint_free", "call_after_reconfig", "knife_edge_world", "sliver_world", "pilot_below_bisection_resolution", "sliver_pilot_next_to_large_pilot", "knife_edge_sum_rejected", "sorted_recompute_interval_not_1"]
 FAULT_DIMENSION = ("crash + rerun (estimator state carried across a resume); operator changes a constraint limit between two "
                    "periods (update_constraint); no fault alters the algorithm")
 ASSUMPTIONS = ["network tolerances >= the algorithms' hard-wired 1e-5 / 1e-7 (the algorithm-side check does not read the network's)",
@@ -58,6 +58,46 @@ def gen(rs, tier):
                     s_["energy"] = round(max(s_["energy"], _mp(st[s_["station"]]["evse"]) * st[s_["station"]]["voltage"] / 1000.0
                                              * sc["sim"]["period"] / 60.0 * (s_["departure"] - s_["arrival"]) * 1.2), 4)
                     s_["battery"]["capacity"] = max(s_["battery"]["capacity"], s_["battery"]["init"] + s_["energy"] * 1.5)
+    rv = world.sub(rs, "sliver")
+    cont = [s_ for s_ in sc["network"]["stations"] if s_["evse"]["type"] == "EVSE" and s_["evse"].get("min", 0) == 0
+            and s_["evse"].get("max") not in (None, float("inf"))]
+    if sc["party"]["kind"] == "greedy" and len(cont) >= 2 and "knife_edge" not in sc and rv.random() < 0.12:
+        # sliver flavour: long periods; the session served first has a last sliver of demand worth less than 0.01 A for one period,
+        # and shares a difference constraint (+1 / -1, same leg) with a hungry session served after it: the later session's
+        # maximum depends on the sliver actually being in the emitted schedule
+        a_, b_ = rv.sample(cont, 2)
+        first = {}
+        for x_ in sorted(sc["sessions"], key=lambda z: z["arrival"]):
+            first.setdefault(x_["station"], x_)
+        if a_["id"] in first and b_["id"] in first:
+            sa, sb = first[a_["id"]], first[b_["id"]]
+            period = rv.choice([60, 120, 240])
+            sc["sim"]["period"] = period
+            t0 = min(sa["arrival"], sb["arrival"])
+            sa["arrival"] = sb["arrival"] = t0
+            for x_ in (sa, sb):
+                x_.pop("est_departure", None)
+                x_.pop("ev_arrival", None)
+            if sa["departure"] >= sb["departure"]:
+                later_b = [x_ for x_ in sc["sessions"] if x_["station"] == b_["id"] and x_ is not sb]
+                room = min([x_["arrival"] for x_ in later_b] + [sa["departure"] + 3])
+                if room > sa["departure"]:
+                    sb["departure"] = room
+            if sa["departure"] < sb["departure"]:
+                sc["party"]["sort"] = "edf"
+                sc["party"].pop("uninterrupted", None)
+                sc["party"]["estimator"] = "none"
+                b_["phase"] = a_["phase"]
+                ap = rv.uniform(0.006, 0.0099)
+                sa["energy"] = ap * a_["voltage"] / 1000.0 * period / 60.0
+                sa["battery"] = {"type": "Battery", "capacity": 50.0, "init": 10.0, "max_power": 20.0}
+                sb["energy"] = round(b_["evse"]["max"] * b_["voltage"] / 1000.0 * period / 60.0 * (sb["departure"] - sb["arrival"]) * 1.5, 4)
+                sb["battery"] = {"type": "Battery", "capacity": sb["energy"] * 2 + 10, "init": 1.0, "max_power": 200.0}
+                lim = round(rv.uniform(0.3, 0.8) * b_["evse"]["max"] + rv.choice([0.0, 0.003, 0.0049, 0.0071]), 4)
+                sc["network"]["constraints"].append({"name": "c_sliver", "coeffs": {b_["id"]: 1.0, a_["id"]: -1.0}, "limit": lim})
+                sc["network"]["violation_tolerance"] = 1e-5
+                sc["network"]["relative_tolerance"] = 1e-7
+                sc["sliver"] = {"first": sa["session_id"], "then": sb["session_id"], "amp_periods": ap}
     if sc["party"]["kind"] == "rr":
         # keep the discretised continuous grids small (speed)
         inc = sc["party"].get("continuous_inc", 1)
@@ -104,6 +144,8 @@ def check(sc):
         out.probe("constraint_free")
     if sc.get("knife_edge"):
         out.probe("knife_edge_world")
+    if sc.get("sliver"):
+        out.probe("sliver_world")
     if any(s["evse"]["type"] == "Finite" for s in sc["network"]["stations"]):
         out.probe("finite_rate_station")
     est_mode = p.get("estimator", "none")
@@ -121,6 +163,10 @@ def check(sc):
             break
         vec = [sch[s][0] for s in ids]
         col = [[x] for x in vec]
+        if any(0 < x < 0.01 for x in vec):
+            out.probe("pilot_below_bisection_resolution")
+            if sc.get("sliver") and max(vec) > 1:
+                out.probe("sliver_pilot_next_to_large_pilot")
         cons = cons_of(sc, t)
         L_ = len(sch[ids[0]])
         if L_ > 1:
